@@ -71,9 +71,10 @@ def pSCall : P SCall := fun ts => do
 def pSub : P Sub := fun ts => do
   let (valid, ts) ← pInt ts
   let (act, ts) ← pInt ts
+  let (bust, ts) ← pBool ts
   let (ns, ts) ← pNat ts
   let (sc, ts) ← pRep pSCall ns ts
-  pure ({ valid := valid != 0, det := act == 1, silk := sc }, ts)
+  pure ({ valid := valid != 0, det := act == 1, silk := sc, bust := bust }, ts)
 
 def pCallOr : P CallOr := fun ts => do
   let (ds, ts) ← pBool ts
@@ -95,11 +96,20 @@ def lenStr : Pkt → String
   | .lowBudget n => if n ≤ 2 then s!"len={n}" else "len=N"
   | .dtx n => s!"len={n}"
   | .normal => "len=N"
+  | .bust => "len=2"
   | .badOracle => "BAD-ORACLE"
 
 def listOr (l : List String) : String := if l.isEmpty then "-" else ",".intercalate l
 
-def callStr (c : Cfg) (r : St × Pkt × Trace) : String :=
+/-- The oracle-shape contract is monitored on every call that reaches the frame loop. -/
+def contractBroken (c : Cfg) (o : CallOr) : Pkt → Bool
+  | .dtx _ => !shapeOk c o
+  | .normal => !shapeOk c o
+  | .bust => !shapeOk c o
+  | _ => false
+
+def callStr (c : Cfg) (o : CallOr) (r : St × Pkt × Trace) : String :=
+  if contractBroken c o r.2.1 then "BAD-ORACLE (oracle-shape contract OpusModel.Dtx.shapeOk violated)" else
   match r.2.1 with
   | .err e => s!"{errStr e} sil=-1 acts=- nz=- tc=- indtx={if inDtx c r.1 then 1 else 0} st={stateStr r.1}"
   | p =>
@@ -110,7 +120,14 @@ def pktChar : Pkt → Char
   | .lowBudget n => if n = 1 then '1' else if n = 2 then '2' else 'N'
   | .dtx n => if n = 1 then '1' else '2'
   | .normal => 'N'
+  | .bust => '2'
   | .badOracle => '?'
+
+def runContract (c : Cfg) : St → List CallOr → Bool
+  | _, [] => false
+  | st, o :: os =>
+    let r := encodeCall c st o
+    contractBroken c o r.2.1 || runContract c r.1 os
 
 def handle : List String → String
   | "call" :: ts =>
@@ -119,7 +136,7 @@ def handle : List String → String
       let (st, ts) ← pState ts
       let (o, ts) ← pCallOr ts
       if ts.isEmpty then pure (c, st, o) else none) with
-    | some (c, st, o) => callStr c (encodeCall c st o)
+    | some (c, st, o) => callStr c o (encodeCall c st o)
     | none => "bad-op"
   | "run" :: ts =>
     match (do
@@ -130,6 +147,7 @@ def handle : List String → String
     | some (c, os) =>
       let tr := run c (initSt c.channels) os
       let fin := runFinal c (initSt c.channels) os
+      if (runContract c (initSt c.channels) os) then "BAD-ORACLE (oracle-shape contract OpusModel.Dtx.shapeOk violated)" else
       "pk=" ++ String.ofList (tr.map (fun x => pktChar x.1)) ++ " dx=" ++ String.ofList (tr.map (fun x => if x.2 then '1' else '0'))
         ++ " st=" ++ stateStr fin
     | none => "bad-op"
